@@ -345,6 +345,12 @@ class MiniEval:
             a, b = self.ev(e.left), self.ev(e.right)
             if isinstance(a, Rec) or isinstance(b, Rec):
                 return Rec("call", Rec("name", "$binop:" + type(e.op).__name__), [a, b], {})
+            if isinstance(e.op, (ast.Sub, ast.BitAnd, ast.BitOr, ast.BitXor)):
+                # dict views are handed out as lists by this evaluator; in set algebra they behave as sets
+                if isinstance(a, (set, frozenset)) and isinstance(b, list):
+                    b = set(b)
+                elif isinstance(b, (set, frozenset)) and isinstance(a, list):
+                    a = set(a)
             try:
                 if isinstance(e.op, ast.Add):
                     return a + b
